@@ -5,7 +5,8 @@
      - [reconcile_file_step_fails]              a failure of step k of n aborts the whole command
      - [reconcile_file_unparseable], [reconcile_file_no_record], [reconcile_file_invalid_result]
    Part 2 (C03): every command is a minimal edit of the line list.
-   Part 3 (C04): refinement of an abstract model on parsed records (see there for the coverage). *)
+   C04 (refinement of an abstract model on parsed records) is in Proofs/CommandsSpec.v, CommandsRefine.v,
+   CommandsStop.v, CommandsPause.v, CommandsHistory.v and CommandsReject.v. *)
 From Klog Require Import Base.Prelude Base.Utf8 Model.Calendar Model.Values Model.Record Model.Lines Model.Parser
   Model.Tags Model.Reconcile Model.Commands Proofs.Lines Proofs.Parser Proofs.Style Proofs.Reconcile.
 From Coq Require Import ZifyBool.
